@@ -305,6 +305,17 @@ mod proofs {
         #[kani::proof] #[kani::unwind(6)] fn precondition_satisfiable() { satisfiable::<3, 2>() }
         #[kani::proof] #[kani::unwind(6)] fn check() { preference_order::<3, 2>() }
     }
+    // three requested languages (the property's own bound): thorough tier only
+    mod po_2_3 {
+        use super::*;
+        #[kani::proof] #[kani::unwind(6)] fn precondition_satisfiable() { satisfiable::<2, 3>() }
+        #[kani::proof] #[kani::unwind(6)] fn check() { preference_order::<2, 3>() }
+    }
+    mod po_3_3 {
+        use super::*;
+        #[kani::proof] #[kani::unwind(6)] fn precondition_satisfiable() { satisfiable::<3, 3>() }
+        #[kani::proof] #[kani::unwind(6)] fn check() { preference_order::<3, 3>() }
+    }
 }
 
 #[cfg(test)]
